@@ -371,7 +371,8 @@ func (c *ExprCtx) localAtPoint(name string) (TV, bool) {
 				case *ssa.DebugRef:
 					if id := in.Expr; id != nil {
 						if obj := in.Object(); obj != nil && obj.Name() == name {
-							if _, isVar := obj.(*types.Var); isVar {
+							if vr, isVar := obj.(*types.Var); isVar && !vr.IsField() {
+								// (a field selector x.name is not the variable called name)
 								if os.Getenv("GOWP_DEBUG") == "names" {
 									fmt.Fprintf(os.Stderr, "resolve %q: DebugRef in block %d -> %s (addr=%v)\n", name, b.Index, in.X.Name(), in.IsAddr)
 								}
